@@ -334,6 +334,12 @@ def step (now : Nat) (s : Node) : Event → Node × List Out
 
 def init (me : Key) (genesis : List (Key × Hash)) : Node := { me := me, genesis := genesis }
 
+/-- A new IdentityCommunity object (with a new IdentityManager) over the database an earlier object left behind:
+    the tables survive, the consent table, the per-subject trees, the record of own attestations and the permissions
+    do not; `chain'` is the token chain `__init__` reloads (longest root path of the stored own tree). -/
+def restartOf (s : Node) (chain' : List Hash) : Node :=
+  { me := s.me, genesis := s.genesis, mdRows := s.mdRows, attRows := s.attRows, chain := chain' }
+
 /-- a history: timestamped events, oldest first; outputs carry the time of the event that produced them -/
 def run (s : Node) : List (Nat × Event) → Node × List (Nat × Out)
   | [] => (s, [])
@@ -349,5 +355,11 @@ def attestMp : Out → Option Hash
 
 /-- the metadata hashes a history's AttestPayloads were made over, in order of emission -/
 def attestsOf (outs : List (Nat × Out)) : List Hash := outs.filterMap (fun x => attestMp x.2)
+
+/-- `x` has an unbroken path of tokens of `els` down to the genesis hash `gen`:
+    `x.prev = gen`, or `x.prev` is the id of a token of `els` that is itself rooted -/
+inductive Rooted (gen : Hash) (els : List Token) : Token → Prop
+  | base {x : Token} : x ∈ els → x.prev = gen → Rooted gen els x
+  | step {x y : Token} : x ∈ els → y ∈ els → y.id = x.prev → Rooted gen els y → Rooted gen els x
 
 end Ipv8.C17
